@@ -206,8 +206,10 @@ def update_fw_step(versions, combos):
                 w.goal("refused")
             try:
                 C.drain(w, g)
-                for sub, n in ((0, 20), (2, 12)):
-                    payload = C.hex_payload(w, f"req{sub}", n)
+                for sub, n in ((0, 5), (2, 3)):
+                    # any well-formed request: the hex rendering of n arbitrary 16-bit words
+                    payload = C.hex_of_words(w, [w.fresh_int(f"req{sub}.w{i}", 0, 65535)
+                                                 for i in range(n)])
                     line = C.structured_line(w, [ids[0], 255, 4, 0, sub], payload)
                     w.info[f"line{sub}"] = line
                     C.step_line(w, g, line)
@@ -254,7 +256,7 @@ def build(tier):
                 goals=["returned", "refused"], doc="set_child_value as a step, then drain + wake-up"),
         Harness("C-update-fw", update_fw_step(["1.4", "2.2"] if q else versions, combos),
                 {"fw_type/fw_ver": "unbounded ints", "image": "100 bytes via stubbed load_fw",
-                 "requests": "config (20 hex digits) then block (12 hex digits), symbolic"},
+                 "requests": "config (5 symbolic words) then block (3 symbolic words), hex-encoded"},
                 goals=["returned"], doc="update_fw as a step, then config + block requests"),
     ]
     return {
